@@ -25,8 +25,12 @@ def IncCurrent_guard_1 (supplyLimit : Coin) (supply_CurrentSupply : Coin) (coin 
   let t2 ← Coin_IsLT supplyLimit t1
   some t2
 
+/-- branch condition: `limit.TimeLimited` -/
+def IncCurrent_cond_2 (limit_TimeLimited : Bool) : Option (Bool) := do
+  some limit_TimeLimited
+
 /-- rejects when true: `timeBasedSupplyLimit.IsLT(supply.TimeLimitedCurrentSupply.Add(coin))` -/
-def IncCurrent_guard_2 (timeBasedSupplyLimit : Coin) (supply_TimeLimitedCurrentSupply : Coin) (coin : Coin) : Option (Bool) := do
+def IncCurrent_guard_3 (timeBasedSupplyLimit : Coin) (supply_TimeLimitedCurrentSupply : Coin) (coin : Coin) : Option (Bool) := do
   let t1 ← Coin_Add supply_TimeLimitedCurrentSupply coin
   let t2 ← Coin_IsLT timeBasedSupplyLimit t1
   some t2
@@ -66,8 +70,12 @@ def IncIncoming_guard_1 (supplyLimit : Coin) (totalSupply : Coin) (coin : Coin) 
   let t2 ← Coin_IsLT supplyLimit t1
   some t2
 
+/-- branch condition: `limit.TimeLimited` -/
+def IncIncoming_cond_2 (limit_TimeLimited : Bool) : Option (Bool) := do
+  some limit_TimeLimited
+
 /-- rejects when true: `timeBasedSupplyLimit.IsLT(timeLimitedTotalSupply.Add(coin))` -/
-def IncIncoming_guard_2 (timeBasedSupplyLimit : Coin) (timeLimitedTotalSupply : Coin) (coin : Coin) : Option (Bool) := do
+def IncIncoming_guard_3 (timeBasedSupplyLimit : Coin) (timeLimitedTotalSupply : Coin) (coin : Coin) : Option (Bool) := do
   let t1 ← Coin_Add timeLimitedTotalSupply coin
   let t2 ← Coin_IsLT timeBasedSupplyLimit t1
   some t2
@@ -112,20 +120,24 @@ def createHTLT_guard_2 (amount_0 : Coin) (asset_MinSwapAmount : Int) (asset_MaxS
 def createHTLT_guard_3 (timestamp : Nat) (pastTimestampLimit : Int) (futureTimestampLimit : Int) : Option (Bool) := do
   some ((decide (timestamp < (U64_ofI64 pastTimestampLimit))) || (decide (timestamp ≥ (U64_ofI64 futureTimestampLimit))))
 
+/-- branch condition: `sender.Equals(deputyAddress)` -/
+def createHTLT_cond_4 (read_sender_Equals_deputyAddress : Bool) : Option (Bool) := do
+  some read_sender_Equals_deputyAddress
+
 /-- rejects when true: `to.Equals(deputyAddress)` -/
-def createHTLT_guard_4 (read_to_Equals_deputyAddress : Bool) : Option (Bool) := do
+def createHTLT_guard_5 (read_to_Equals_deputyAddress : Bool) : Option (Bool) := do
   some read_to_Equals_deputyAddress
 
 /-- rejects when true: `!to.Equals(deputyAddress)` -/
-def createHTLT_guard_5 (read_to_Equals_deputyAddress : Bool) : Option (Bool) := do
+def createHTLT_guard_6 (read_to_Equals_deputyAddress : Bool) : Option (Bool) := do
   some (!read_to_Equals_deputyAddress)
 
 /-- rejects when true: `timeLock < asset.MinBlockLock || timeLock > asset.MaxBlockLock` -/
-def createHTLT_guard_6 (timeLock : Nat) (asset_MinBlockLock : Nat) (asset_MaxBlockLock : Nat) : Option (Bool) := do
+def createHTLT_guard_7 (timeLock : Nat) (asset_MinBlockLock : Nat) (asset_MaxBlockLock : Nat) : Option (Bool) := do
   some ((decide (timeLock < asset_MinBlockLock)) || (decide (timeLock > asset_MaxBlockLock)))
 
 /-- rejects when true: `amount[0].Amount.LT(asset.FixedFee.Add(asset.MinSwapAmount))` -/
-def createHTLT_guard_7 (amount_0 : Coin) (asset_FixedFee : Int) (asset_MinSwapAmount : Int) : Option (Bool) := do
+def createHTLT_guard_8 (amount_0 : Coin) (asset_FixedFee : Int) (asset_MinSwapAmount : Int) : Option (Bool) := do
   let t1 ← Int_Add asset_FixedFee asset_MinSwapAmount
   some (Int_LT amount_0.amount t1)
 
@@ -146,6 +158,6 @@ def UpdateWindow_cond_1 (asset_SupplyLimit_TimeLimited : Bool) (newTimeElapsed :
 def untranslated : List String := []
 
 /-- names of the translated definitions -/
-def translated : List String := ["IncCurrent_supplyLimit_1", "IncCurrent_timeBasedSupplyLimit_1", "IncCurrent_supply_TimeLimitedCurrentSupply_1", "IncCurrent_supply_CurrentSupply_1", "IncCurrent_guard_1", "IncCurrent_guard_2", "DecCurrent_supply_CurrentSupply_1", "DecCurrent_guard_1", "IncIncoming_totalSupply_1", "IncIncoming_supplyLimit_1", "IncIncoming_timeLimitedTotalSupply_1", "IncIncoming_timeBasedSupplyLimit_1", "IncIncoming_supply_IncomingSupply_1", "IncIncoming_guard_1", "IncIncoming_guard_2", "DecIncoming_supply_IncomingSupply_1", "DecIncoming_guard_1", "IncOutgoing_supply_OutgoingSupply_1", "IncOutgoing_guard_1", "DecOutgoing_supply_OutgoingSupply_1", "DecOutgoing_guard_1", "createHTLT_guard_1", "createHTLT_guard_2", "createHTLT_guard_3", "createHTLT_guard_4", "createHTLT_guard_5", "createHTLT_guard_6", "createHTLT_guard_7", "UpdateWindow_newTimeElapsed_1", "UpdateWindow_supply_TimeElapsed_1", "UpdateWindow_supply_TimeElapsed_2", "UpdateWindow_cond_1"]
+def translated : List String := ["IncCurrent_supplyLimit_1", "IncCurrent_timeBasedSupplyLimit_1", "IncCurrent_supply_TimeLimitedCurrentSupply_1", "IncCurrent_supply_CurrentSupply_1", "IncCurrent_guard_1", "IncCurrent_cond_2", "IncCurrent_guard_3", "DecCurrent_supply_CurrentSupply_1", "DecCurrent_guard_1", "IncIncoming_totalSupply_1", "IncIncoming_supplyLimit_1", "IncIncoming_timeLimitedTotalSupply_1", "IncIncoming_timeBasedSupplyLimit_1", "IncIncoming_supply_IncomingSupply_1", "IncIncoming_guard_1", "IncIncoming_cond_2", "IncIncoming_guard_3", "DecIncoming_supply_IncomingSupply_1", "DecIncoming_guard_1", "IncOutgoing_supply_OutgoingSupply_1", "IncOutgoing_guard_1", "DecOutgoing_supply_OutgoingSupply_1", "DecOutgoing_guard_1", "createHTLT_guard_1", "createHTLT_guard_2", "createHTLT_guard_3", "createHTLT_cond_4", "createHTLT_guard_5", "createHTLT_guard_6", "createHTLT_guard_7", "createHTLT_guard_8", "UpdateWindow_newTimeElapsed_1", "UpdateWindow_supply_TimeElapsed_1", "UpdateWindow_supply_TimeElapsed_2", "UpdateWindow_cond_1"]
 
 end Irismod.Gen.PureHtlc
